@@ -8,7 +8,6 @@ from vlib import render as RR
 
 ID = "C17"
 PROP_FILE = "Props/C17.v"
-THEOREMS = ["C17_fixed", "C17_pad_length", "C17_pad_identity", "C17_capture", "C17_named_binding", "C17_nonvacuous"]
 RULE = ("fixed names: unit / tuple / named variants x {identifier, serialize_all, serialize, to_string} x prefix x ASCII and "
         "multi-byte names x a grid of format specs (fill {none,*,é,0} x align {none,<,>,^} x width x precision, run-time width/"
         "precision) — the derived Display must equal the model's Formatter::pad of the canonical name. placeholders: named-field "
